@@ -25,6 +25,13 @@ func GenC20(seed uint64, i int) *world.Case {
 		sp2 := gen.Spec(r, gen.SpecOpts{MaxOps: 1 + r.Intn(3), Chunk: cfg.Chunk, Tag: "b", NoWeak: true, NoObserver: true, NoScanOp: true, ArgTypes: []spec.Type{t},
 			ForceOps: []string{r.PickS("inc", "filter", "flatmap", "keyfold")}})
 		if sp2.Nodes[0].Op == "arg" {
+			if r.Chance(0.4) {
+				// Failure-free recomputation: r1's tasks run a second time for r2.
+				c.Script = append(c.Script, world.Step{Op: "discard", Of: "r1"})
+				c.Script = append(c.Script, world.Step{Op: "run", ID: "r2", Func: "prog1", Spec: sp2, Args: []string{"r1"}, MustSucceed: true})
+				c.Script = append(c.Script, world.Step{Op: "scan", Of: "r2", MustSucceed: true})
+				return c
+			}
 			c.Script = append(c.Script, world.Step{Op: "run", ID: "r2", Func: "prog1", Spec: sp2, Args: []string{"r1"}, MustSucceed: true})
 			c.Script = append(c.Script, world.Step{Op: "scan", Of: "r2", MustSucceed: true})
 		}
